@@ -436,6 +436,42 @@ func runC12(c *Ctx, r *Run) {
 				ok = true
 			}
 		}
+		if !ok {
+			// the single step lives in a helper of the ciphertext (`ct.mulBy(pk, ct2.c)`): the receiver's value times the
+			// helper's factor parameter, which this call binds to the other ciphertext's value
+			allInstrs(add, func(in ssa.Instruction) {
+				hc, isCall := in.(*ssa.Call)
+				if !isCall {
+					return
+				}
+				g := localHelperOf(hc)
+				if g == nil || g.Signature.Recv() == nil || len(hc.Call.Args) == 0 || hc.Call.Args[0] != ssa.Value(add.Params[0]) {
+					return
+				}
+				for _, call := range callsNamed(g, "ModMul") {
+					a := argsOf(call)
+					if len(a) != 3 {
+						continue
+					}
+					own := g.Params[0].Name() + ".c"
+					if path(recvOf(call)) != own || !strings.HasSuffix(path(a[2]), ".nSquared.Modulus") {
+						continue
+					}
+					for k := 0; k < 2; k++ {
+						if path(a[k]) != own {
+							continue
+						}
+						if prm, isP := a[1-k].(*ssa.Parameter); isP {
+							for i, gp := range g.Params {
+								if gp == prm && i < len(hc.Call.Args) && path(hc.Call.Args[i]) == add.Params[2].Name()+".c" {
+									ok = true
+								}
+							}
+						}
+					}
+				}
+			})
+		}
 		r.Check("HOM-1", name+"|c·c' mod N²", c.Pos(add.Pos()), ok, "ct ⊕ ct' multiplies the two ciphertext values modulo N² into the receiver", "Add is not ct.c.ModMul(ct.c, ct2.c, N²)")
 	} else {
 		r.Unresolved("HOM-1", "pkg/paillier.(*Ciphertext).Add")
